@@ -242,6 +242,10 @@ func streamFrames() (ok []streamFrame, dropped []string) {
 	} else {
 		dropped = append(dropped, "role-reply: the parser does not reject it")
 	}
+	// hellos of a peer that speaks a later or an earlier version (appended: the indices above are used by scenarios)
+	for _, v := range []uint64{5, 1} {
+		mk(fmt.Sprintf("hello-v%d", v), wire.New("hello").Set("Version", v).Set("Xid", 0x0e0e0e07).Add("Elements", wire.New("hello_elem_versionbitmap").Set("Type", 1).SetB("Bitmaps", []byte{0, 0, 0, byte(1<<4 | 1<<v)})))
+	}
 	return
 }
 
@@ -286,6 +290,9 @@ type streamScenario struct {
 	AsBuffer bool  `json:"as_buffer,omitempty"`
 	// SlowParser: the parser yields to the other goroutines before it looks at the frame it was given.
 	// CloseErr: closing the connection reports an error.
+	// Clock: virtual time moves on to the next pending timer (due within a minute) whenever everything
+	// has come to rest, up to this many times
+	Clock      int  `json:"clock_ticks,omitempty"`
 	SlowParser bool `json:"slow_parser,omitempty"`
 	CloseErr   bool `json:"close_error,omitempty"`
 	OutSizes []int `json:"out_sizes,omitempty"`
@@ -433,6 +440,15 @@ func newStreamExplorer(sc streamScenario, alphabet []streamFrame, outAlphabet []
 				}
 			})
 		}
+		if sc.Clock > 0 {
+			verifrt.GoNamed("clock", func() {
+				for i := 0; i < sc.Clock; i++ {
+					var t *verifrt.VTimer
+					verifrt.WaitIdle("clock", func() bool { t = verifrt.PendingTimer(time.Minute); return t != nil })
+					verifrt.FireTimer(t)
+				}
+			})
+		}
 		verifrt.GoNamed("consumer", func() {
 			for {
 				m := verifrt.Recv(ms.Inbound)
@@ -558,7 +574,7 @@ func stuckThreads(x *verifrt.Exec) []string {
 	var out []string
 	for _, b := range x.BlockedOps() {
 		switch {
-		case b.Kind == "wait" && (b.Site == "conn.Read" || b.Site == "join"):
+		case b.Kind == "wait" && (b.Site == "conn.Read" || b.Site == "join" || b.Site == "clock"):
 		case b.Kind == "comm" && len(b.Send) == 0 && len(b.Recv) > 0 && onlyFrom(b.Recv, chInbound, chOutbound, chShutdown, chFull, chParserShutdown, chError):
 		case b.Kind == "comm" && len(b.Send) == 0 && contains(b.Recv, chOutbound):
 			// drain loop: Outbound or the ten-minute ticker (an unnamed channel)
